@@ -1,6 +1,7 @@
 import HdVerif.Proofs.SegReadOrder
 import HdVerif.Proofs.SegMeta
 import HdVerif.Proofs.Effects
+import HdVerif.Proofs.SegReadTie
 import HdVerif.Generated.T8h
 /-! # C02  Segment selection, ordering, combining and relabelling are exact
 
@@ -612,6 +613,62 @@ example : ∃ σ σ' : St, (∀ x, σ.env x = some 0 → x = 0) ∧ Exec exInPla
       exact Step.bindStored ⟨1, false, .stored⟩ (by simp [exInPlace]) rfl rfl σ
     · exact Step.writeInPlace ⟨1, true, .fresh⟩ (by simp [exInPlace]) rfl 0 1 _ (by simp [St.bind])
   · simp [St.write, σ]
+
+/-! ## The hand-written loops use the expressions of the source (tie T: T8j, T8k, T8m)
+
+Bridges between hand-written definitions of `Model/SegRead.lean` and definitions regenerated from the current source
+(`Proofs/SegReadTie.lean`).  They are extra statements: the result theorems above are about the hand-written definitions,
+these say that those definitions contain exactly what the source contains now. -/
+
+/-- the combination loop: admissible FRACTIONAL values, divisor, overlap test at a pixel, update of a pixel (T8j) -/
+theorem combination_loop_is_source (ty : SegType) (mfv : Nat) (skip : Bool) (d : DType) (acc : List Int)
+    (r : SFrame × Nat) : combineStep ty mfv skip d acc r = SegReadTie.combineStepGen ty mfv skip d acc r :=
+  SegReadTie.combineStep_uses_source ty mfv skip d acc r
+
+/-- `_get_segment_remap_values`, the default channel numbering and pairing of `_prepare_channel_tables` (T8k) -/
+theorem channel_mapping_is_source (segs : List Nat) (combine relabel : Bool) :
+    remapValues segs combine relabel =
+      (match remapKind combine relabel (segs.length : Int) with
+       | .ok (k, a, b) =>
+         if k = 0 then none else if k = 1 then some (List.range' a.toNat (b - a).toNat) else some segs
+       | .error _ => none) ∧
+    chanTable segs none =
+      (match defaultChannels (segs.length : Int) with
+       | .ok (lo, hi) => (List.range' lo.toNat (hi - lo).toNat).zip segs
+       | .error _ => []) :=
+  ⟨SegReadTie.remapValues_uses_source segs combine relabel, SegReadTie.chanTable_default_uses_source segs⟩
+
+/-- all five read entry points hand `segment_numbers`, `combine_segments`, `relabel`, `rescale_fractional`,
+`skip_overlap_checks`, `dtype` on under the same name — to the frame loop, to `_get_segment_remap_values`, to the channel
+table (T8k): the model's `read` passes the request through unchanged -/
+theorem entry_points_forward_options_unchanged :
+    forwarding.all SegReadTie.rowOk = true ∧
+    (["get_pixels_by_source_instance", "get_pixels_by_source_frame", "get_volume",
+      "get_pixels_by_dimension_index_values", "get_total_pixel_matrix"].all fun e =>
+        ["frames:relabel", "frames:combine_segments", "remap:relabel", "channel:segment_numbers"].all fun k =>
+          forwarding.any fun r => r.1 == e && r.2.1 == k) = true :=
+  ⟨SegReadTie.forwarding_passes_options_unchanged, SegReadTie.forwarding_covers_entry_points⟩
+
+/-- the one-hot expansion of a label map and the rescaling tail of a FRACTIONAL read (T8m) -/
+theorem post_processing_is_source (d : DType) (n : Nat) (v : Int) (mfv : Nat) (frames : List (List (List Int))) :
+    oneHot d n v =
+      (match oneHotShape (n : Int) with
+       | .ok (size, start) =>
+         let i := if v < 0 then v + size else v
+         if i < 0 ∨ i ≥ size then .error .index
+         else .ok (((List.range size.toNat).map fun (k : Nat) => castVal d (if i = (k : Int) then 1 else 0)).drop start.toNat)
+       | .error e => .error e) ∧
+    (if frames.any (fun fr => fr.any (fun ch => ch.any (fun v => v > (mfv : Int)))) then (.error .runtime : Except ErrKind Nat)
+     else .ok mfv) =
+      (match rescaleGuard (SegReadTie.flatMax (frames.flatten.flatten)) (mfv : Int) with
+       | .ok dv => .ok dv.toNat
+       | .error e => .error e) :=
+  ⟨SegReadTie.oneHot_uses_source d n v, SegReadTie.rescale_tail_uses_source mfv frames⟩
+
+/-- non-vacuity: the regenerated step on a FRACTIONAL frame (0/100 valued) meeting an output plane — overlap at pixel 1 -/
+example : SegReadTie.combineStepGen .fractional 100 false .u8 [0, 3, 0] (⟨7, 2, [100, 100, 0]⟩, 5) = .error .runtime := by decide
+example : SegReadTie.combineStepGen .fractional 100 true .u8 [0, 3, 0] (⟨7, 2, [100, 100, 0]⟩, 5) = .ok [5, 5, 0] := by decide
+example : SegReadTie.combineStepGen .fractional 100 true .u8 [0, 3, 0] (⟨7, 2, [100, 50, 0]⟩, 5) = .error .value := by decide
 
 /-! ## Metadata search -/
 
